@@ -122,6 +122,42 @@ def work_extra(payload, skip, report):
     return acc
 
 
+# Explicit slice outside the AST grammar (the renderer cannot express these unambiguously): argument names that are
+# themselves computed, and values containing '=' that travel through a parameter into a positional argument.
+# (library as text, page, expected by the MediaWiki rules: the name=value split happens before anything is substituted)
+TEXT_LIB = {"one": "1", "kk": "k", "sp": " k ", "a": "[{{{1|}}}/{{{k|}}}]", "inner": "<{{{1|}}}>", "outer": "{{inner|{{{1}}}}}",
+            "outerk": "{{inner|1={{{1}}}}}", "fwd2": "{{outer|{{{1}}}}}", "kv": "k=v"}
+TEXT_CASES = [
+    ("{{a|{{one}}=x}}", "[x/]"), ("{{a|{{kk}}=y}}", "[/y]"), ("{{a|{{sp}}=y}}", "[/y]"), ("{{a| {{kk}} = y }}", "[/y]"),
+    ("{{a|{{one}}=x|z}}", "[z/]"), ("{{a|z|{{one}}=x}}", "[x/]"), ("{{a|{{one}}{{one}}=x}}", "[/]"),
+    ("{{inner|{{kv}}}}", "<k=v>"), ("{{outerk|1=x=y}}", "<x=y>"), ("{{inner|1=a=b}}", "<a=b>"),
+    ("{{outer|1=x=y}}", "<x=y>"), ("{{outer|1=http://h/?q=1}}", "<http://h/?q=1>"), ("{{fwd2|1=x=y}}", "<x=y>"),
+    ("{{outer|1= x=y }}", "<x=y>"),
+]
+
+
+def work_text(payload, skip, report):
+    acc = Acc(PROP)
+    ctx = new_ctx()
+    for name, body in TEXT_LIB.items():
+        ctx.add_page("Template:" + name, 10, body)
+    for i, (page, want) in enumerate(payload):
+        report(i)
+        ctx.start_page("Tt")
+        try:
+            got = ctx.expand(page)
+        except Exception as e:
+            got = "EXC " + type(e).__name__ + ": " + str(e)[:80]
+        acc.case()
+        acc.count("text_cases")
+        if got != want:
+            oracle = "value_with_equals_sign_through_parameter" if page.startswith(("{{outer|", "{{fwd2|")) else "expand_equals_reference"
+            acc.violation(oracle, {"library": {k: [v, "none"] for k, v in TEXT_LIB.items()}, "page": page, "reference": want}, got, want)
+        acc.distinct("outputs", want)
+    close_ctx(ctx)
+    return acc
+
+
 def replay(case):
     # replays by text: library bodies and page text are stored rendered
     ctx = new_ctx()
@@ -176,14 +212,17 @@ def main(run):
     echunks = [extra[i::m] for i in range(m)]
     for cid, acc, hung in run_chunks(work_extra, [c for c in echunks if c], nproc=run.nproc, case_timeout=30):
         run.acc.merge(acc)
+    for cid, acc, hung in run_chunks(work_text, [TEXT_CASES], nproc=1, case_timeout=30):
+        run.acc.merge(acc)
     cov = {
         "distinct_nontrivial": len(run.acc.sets.get("outputs", ())),
         "rule": "every (library, page) with total AST size <= %d: libraries of 0..2 templates (b may call c; call graph acyclic by "
                 "construction; one deliberately missing template), bodies and pages from the grammar Text | Param[default] | "
                 "Call(positional/named args) | #if | #ifeq | #switch | sequence, nesting depth <= 4, over %d text atoms with "
                 "leading/trailing/interior blanks, newline and list-marker starts, %d parameter names, %d argument-key forms; plus "
-                "every inclusion wrapper (%d) x bodies of size <= 2 x calling pages. Distinct = distinct reference outputs."
-                % (total, len(g.atoms), len(g.names), len(g.keys), len(WRAPPERS)),
+                "every inclusion wrapper (%d) x bodies of size <= 2 x calling pages; %d explicit text cases with computed argument names "
+                "and '='-containing values forwarded through parameters. Distinct = distinct reference outputs."
+                % (total, len(g.atoms), len(g.names), len(g.keys), len(WRAPPERS), len(TEXT_CASES)),
         "exhaustive": True,
     }
     assumptions = [
